@@ -426,6 +426,24 @@ func runC12(c *h.Ctx) {
 						c.Held("sequence." + modeName(lax))
 					}
 					c.Distinct(ptxt, s[0], s[1], fmt.Sprint(useNum))
+					if !lax {
+						// the strict rule also holds for a condition evaluated
+						// below .** (which relaxes structural errors only)
+						btxt := "strict $.** ? ($x[*] " + op + " $y[*])"
+						ob := h.Call("query", cachedPath(btxt), map[string]any{"k": 1.0}, h.Opts{Vars: map[string]any{"x": l, "y": r}})
+						c.Eval(1)
+						wantN := 0
+						if want == model.True {
+							wantN = 2
+						}
+						if ob.Class != h.OK || len(ob.Items) != wantN {
+							cs.Path = btxt
+							cs.Doc = `{"k":1}`
+							c.Violate("sequence.strict", h.F("op", op, "form", "below-any"), fmt.Sprintf("%s with x=%s y=%s on {\"k\":1} returned %s; the condition is %v, so %d items", btxt, s[0], s[1], ob.Summary(), want, wantN), cs)
+						} else {
+							c.Held("sequence.strict")
+						}
+					}
 				}
 			}
 		}
